@@ -814,12 +814,23 @@ def field_source(prog: Program) -> RuleResult:
                 else:
                     raise AnalysisError(f"{construct}: source of the parsed mapping not recognised")
             par = mod.parent(call)
+            if isinstance(par, ast.Attribute) or isinstance(par, (ast.comprehension, ast.DictComp, ast.ListComp, ast.SetComp, ast.GeneratorExp)) or (
+                isinstance(par, ast.Call) and par is not call and dotted(par.func) in ("dict", "sorted", "list", "set", "frozenset")
+            ):
+                problems.append(f"the parsed mapping is post-processed (`{short(mod.parent(par) if isinstance(par, ast.Attribute) else par, 80)}`) before it is stored: what is read back is not what was written")
             if isinstance(par, ast.Dict):
                 pos = next((i for i, (k, v) in enumerate(zip(par.keys, par.values)) if k is None and v is call), None)
                 if pos is not None and pos < len(par.values) - 1:
                     problems.append(f"the parsed mapping is merged into `{short(par, 80)}` BEFORE another source: later entries win, so an explicit entry of the dictionary can be overridden")
             if isinstance(par, ast.BinOp) and isinstance(par.op, ast.BitOr) and par.left is call:
                 problems.append(f"the parsed mapping is the left operand of `{short(par, 80)}`: the right operand wins on common keys")
+            # the parsed mapping bound to a local that is then rebuilt (e.g. every synteny turned into a set)
+            if isinstance(par, ast.Assign) and len(par.targets) == 1 and isinstance(par.targets[0], ast.Name):
+                local0 = par.targets[0].id
+                for later in walk_no_nested(fn):
+                    if isinstance(later, ast.Assign) and later is not par and getattr(later, "lineno", 0) > par.lineno and any(isinstance(t, ast.Name) and t.id == local0 for t in later.targets):
+                        if any(isinstance(n_, ast.Name) and n_.id == local0 for n_ in ast.walk(later.value)):
+                            problems.append(f"the parsed mapping is rebuilt by `{short(later, 80)}` before it is stored: what is read back is not what was written (element order, container type)")
             # the parsed mapping bound to a local that is then overwritten in bulk / entry by entry from another source
             if isinstance(par, ast.Assign) and len(par.targets) == 1 and isinstance(par.targets[0], ast.Name):
                 local = par.targets[0].id
@@ -893,6 +904,20 @@ def sort_key_aligned(prog: Program) -> RuleResult:
             res.fail(construct, f"the key is built from `{short(src)}`, not from every part of the split: dropping or re-arranging parts misaligns text and digit positions between names", mod, comp)
         else:
             raise AnalysisError(f"sort_synteny: key parts `{short(src)}` do not come from a split")
+    # the result is a permutation of the argument: `sorted(<the synteny itself>, key=...)`, no detour through a
+    # mapping keyed by the sort key (two families with the same key - cas1 / cas01 - would collapse into one)
+    construct = f"{modname}:sort_synteny/permutation"
+    param = func_params(fn)[0]
+    rets = [r for r in fn.body if isinstance(r, ast.Return) and r.value is not None]
+    if len(rets) != 1:
+        raise AnalysisError("sort_synteny: single return expected")
+    rv = rets[0].value
+    if isinstance(rv, ast.Call) and dotted(rv.func) == "sorted" and rv.args and dotted(rv.args[0]) == param:
+        res.ok(construct, f"sorted({param}, key=...)")
+    elif any(isinstance(n_, (ast.Dict, ast.DictComp, ast.SetComp, ast.Set)) or (isinstance(n_, ast.Call) and dotted(n_.func) in ("dict", "set", "frozenset")) for st in fn.body for n_ in ast.walk(st) if not isinstance(st, ast.FunctionDef)):
+        res.fail(construct, f"the sorted synteny is rebuilt through a mapping or a set (`{short(rv, 80)}`): families that share a sort key, or repeated ones, collapse", mod, rets[0])
+    else:
+        raise AnalysisError(f"sort_synteny: return `{short(rv)}` not recognised")
     return res
 
 # ---------------------------------------------------------------------------
